@@ -22,9 +22,9 @@ from fractions import Fraction
 import numpy as np
 
 PROP = 'C06'
-TARGETS = ['T6a', 'T6b', 'T6c', 'T6d', 'T6e', 'T6f', 'T6g', 'T6h']
+TARGETS = ['T6a', 'T6b', 'T6c', 'T6d', 'T6e', 'T6f', 'T6g', 'T6h', 'T6i']
 LEAN_MODULES = ['HdVerif.Props.C06']
-MODEL_MODULES = ['HdVerif.Model.PixelPipeline', 'HdVerif.Generated.T6g']
+MODEL_MODULES = ['HdVerif.Model.PixelPipeline', 'HdVerif.Generated.T6g', 'HdVerif.Generated.T6i']
 NAMESPACE = 'HdVerif.C06'
 DRIVER = 'Drivers/C06.lean'
 RULE = ('streams: flags (every (colour type, presence pattern) row x flag tuples through get_frame: all 46 656 cells in thorough, a sample in '
@@ -110,6 +110,22 @@ def discover(T, key, f):
         return ent['shared']['vals'][0]
     if 'image' in ent:
         return ent['image']['vals'][0]
+    return None
+
+
+def discover_voi(T, f):
+    """VOI information in force for frame f: the most specific dataset holding any (per-frame, shared, image); within
+    one dataset a VOI LUT sequence before window values.  ('lut', [luts]) | ('window', window) | None"""
+    placed = {e['place']: e for e in (T.get('voi_luts_placed') or [])}
+    wins = {e['place']: e for e in (T.get('window') or [])}
+    for place in ('perframe', 'shared', 'image'):
+        if place == 'image':
+            if T.get('voi_luts'):
+                return ('lut', T['voi_luts'])
+        elif place in placed:
+            return ('lut', placed[place]['vals'][f if place == 'perframe' else 0])
+        if place in wins:
+            return ('window', wins[place]['vals'][f if place == 'perframe' else 0])
     return None
 
 
@@ -202,11 +218,11 @@ def ref_frame(P, f, flags, opts):
     voi_user = opts.get('voi_user')
     rw_maps = discover(T, 'rwvm', f)
     resc = discover(T, 'rescale', f)
-    win = discover(T, 'window', f)
+    voi_found = discover_voi(T, f)
     present = {
         'rwvm': rw_maps is not None,
         'modality': bool(T.get('mod_lut')) or resc is not None,
-        'voi': voi_user is not None or bool(T.get('voi_luts')) or win is not None,
+        'voi': voi_user is not None or voi_found is not None,
         'icc': bool(T.get('icc')),
         'inverse': (T.get('pres_shape') == 'INVERSE') or (not T.get('pres_shape') and P['photometric'] == 'MONOCHROME1'),
     }
@@ -223,7 +239,8 @@ def ref_apply(P, f, st, opts):
     voi_user = opts.get('voi_user')
     rw_maps = discover(T, 'rwvm', f)
     resc = discover(T, 'rescale', f)
-    win = discover(T, 'window', f)
+    voi_found = discover_voi(T, f)
+    win = voi_found[1] if voi_found and voi_found[0] == 'window' else None
     frame = np.asarray(P['frames'][f])
     info = {'stages': st, 'tolerated_refusal': None, 'exact': True, 'kind': []}
     if ctype != MONO:
@@ -285,8 +302,8 @@ def ref_apply(P, f, st, opts):
             else:
                 wsel = (F(voi_user['c']), F(voi_user['w']))
                 fn = voi_user.get('fn') or 'LINEAR'
-        elif T.get('voi_luts'):
-            vlut = select_lut(T['voi_luts'], sel)
+        elif voi_found[0] == 'lut':
+            vlut = select_lut(voi_found[1], sel)
             if vlut is None:
                 return ('err', 'selector')
         else:
@@ -613,14 +630,26 @@ def gen_pipeline_case(r, idx):
                                 interesting += [int(s0) - 1, int(s0), int(s0), int(s0) + 1]
         if vk in ('lut', 'both'):
             nl = r.choice([1, 1, 2, 3])
-            luts = []
-            for _ in range(nl):
-                vb = r.choice([8, 16])
-                lut = gen_lut(r, vb, (-20, 200), pow2_range=r.random() < 0.8)
-                if r.random() < 0.5:
-                    lut['expl'] = r.choice(EXPL)
-                luts.append(lut)
-            T['voi_luts'] = luts
+
+            def mkluts():
+                luts = []
+                for _ in range(nl):
+                    vb = r.choice([8, 16])
+                    lut = gen_lut(r, vb, (-20, 200), pow2_range=r.random() < 0.8)
+                    if r.random() < 0.5:
+                        lut['expl'] = r.choice(EXPL)
+                    luts.append(lut)
+                return luts
+            # at the image level (VOI LUT module), or in the Frame VOI LUT functional group - shared or per frame with
+            # a table of its own for every frame; sometimes at two levels, to observe precedence
+            u_ = r.random()
+            if u_ < 0.55:
+                T['voi_luts'] = mkluts()
+            else:
+                ps = [r.choice(['shared', 'perframe'])] if r.random() < 0.8 else ['shared', 'perframe']
+                T['voi_luts_placed'] = [{'place': p_, 'vals': [mkluts() for _ in range(n if p_ == 'perframe' else 1)]} for p_ in ps]
+                if r.random() < 0.2:
+                    T['voi_luts'] = mkluts()
         if r.random() < 0.3:
             nm = r.choice([1, 1, 2, 3])
             labels = r.sample(['A', 'B', 'C', 'D'], nm)
@@ -686,7 +715,7 @@ def gen_flags(r, P):
     T = P['T']
     mono = P['photometric'].startswith('MONO')
     has = {'rw': bool(T.get('rwvm')), 'mod': bool(T.get('rescale') or T.get('mod_lut')),
-           'voi': bool(T.get('window') or T.get('voi_luts')), 'pal': bool(T.get('palette')), 'icc': bool(T.get('icc'))}
+           'voi': bool(T.get('window') or T.get('voi_luts') or T.get('voi_luts_placed')), 'pal': bool(T.get('palette')), 'icc': bool(T.get('icc'))}
 
     def tri(k, p_true=0.3):
         u = r.random()
@@ -718,12 +747,14 @@ def gen_opts(r, P, flags):
         opts['dtype'] = r.choice(['float32', 'float32', 'int16', 'int32', 'uint8', 'uint16', 'int64'])
     # selectors
     wins = [v for e in T.get('window') or [] for v in e['vals']]
-    nalt = len(T['voi_luts']) if T.get('voi_luts') else (len(wins[0]['c']) if wins else 1)
+    all_luts = [v for e in T.get('voi_luts_placed') or [] for luts in e['vals'] for v in luts] + list(T.get('voi_luts') or [])
+    first_luts = (T.get('voi_luts_placed') or [{'vals': [T.get('voi_luts') or []]}])[0]['vals'][0]
+    nalt = len(first_luts) if first_luts else (len(wins[0]['c']) if wins else 1)
     u = r.random()
     if u < 0.35:
         opts['voi_selector'] = r.randint(-nalt - 1, nalt)
     elif u < 0.5:
-        ex = [v.get('expl') for v in T.get('voi_luts') or []] if T.get('voi_luts') else (wins[0].get('expl') if wins else None)
+        ex = [v.get('expl') for v in all_luts] if all_luts else (wins[0].get('expl') if wins else None)
         cand = [e for e in (ex or []) if e] + ['NOPE']
         opts['voi_selector'] = r.choice(cand)
     elif u < 0.6 and P['photometric'].startswith('MONO'):
@@ -856,6 +887,15 @@ def stream_pipeline(ctx, reqs, pending):
                     first = (f, kw, res, case)
                 ref = check_call(ctx, case, P, f, flags, opts, res, 'get_frame')
                 mp = model_params(P, f, opts) if ref[0] in ('ok', 'err') and ref[1] != 'selector' else None
+                if f == 0 and rep == 0 and P['photometric'].startswith('MONO'):
+                    # the translated presentation rule (T6i) on this image: must invert exactly when the frames read do
+                    shape = P['T'].get('pres_shape')
+                    for ap in (True, False):
+                        reqs.append(('presentationInverts', {'apply': ap, 'has_shape': bool(shape), 'shape': shape or '',
+                                                             'photometric': P['photometric']}))
+                        pending.append(({'stream': 'pipe', 'idx': idx, 'what': 'presentation rule (T6i) vs stages of the reference',
+                                         'shape': shape, 'photometric': P['photometric'], 'apply': ap},
+                                        bool(ap and (shape == 'INVERSE' or (not shape and P['photometric'] == 'MONOCHROME1')))))
                 if mp is not None and 'constant' not in str(ref[1]):
                     reqs.append(('pipeline', {'flags': [flags[k] for k in ('rw', 'mod', 'voi', 'pal', 'icc')], 'pres': flags['pres'],
                                               'ctype': MONO, 'present': [mp[1][k] for k in PRES_KEYS], 'params': mp[0],
@@ -863,7 +903,7 @@ def stream_pipeline(ctx, reqs, pending):
                     pending.append(('pipeline', {k: v for k, v in case.items() if k != 'P'} | {'T': P['T']}, res, ref,
                                     opts.get('dtype', 'float64')))
                 kinds = '+'.join(ref[2]['kind']) if ref[0] == 'ok' else ref[0] + ':' + str(ref[1])[:30]
-                places = ','.join(f"{k}:{'/'.join(e['place'] for e in P['T'][k])}" for k in ('rescale', 'window', 'rwvm') if P['T'].get(k))
+                places = ','.join(f"{k}:{'/'.join(e['place'] for e in P['T'][k])}" for k in ('rescale', 'window', 'rwvm', 'voi_luts_placed') if P['T'].get(k))
                 ctx.case(sample=case if (ref[0] == 'ok' and ctx.evaluations % 211 == 0) else None,
                          nontrivial_key=(kinds, places, opts.get('dtype'), P['bits'], P['signed'], idx) if ref[0] == 'ok' and ref[2]['kind'] else None,
                          pipeline=kinds, placement=places or '-', outcome=res[0] if res[0] == 'ok' else res[1],
@@ -1117,14 +1157,14 @@ def model_params(P, f, opts):
         present['voi'] = True
         out['voi'] = {'k': 'lut', 'first': u['first'], 'data': u['data']} if u['kind'] == 'lut' else \
             {'k': 'window', 'fn': u.get('fn') or 'LINEAR', 'c': fs(F(u['c'])), 'w': fs(F(u['w']))}
-    elif T.get('voi_luts'):
-        v = select_lut(T['voi_luts'], sel)
+    elif (discover_voi(T, f) or (None,))[0] == 'lut':
+        v = select_lut(discover_voi(T, f)[1], sel)
         if v is None:
             return None
         present['voi'] = True
         out['voi'] = {'k': 'lut', 'first': v['first'], 'data': v['data']}
     else:
-        win = discover(T, 'window', f)
+        win = (discover_voi(T, f) or (None, None))[1]
         if win is not None:
             cw = select_window(win, sel)
             if cw is None:
@@ -1514,7 +1554,7 @@ def stream_placement(ctx, reqs, pending):
     vals = {'image': 1, 'shared': 2, 'perframe': None}
     n = 3
     frames = [[[10 * f + k for k in range(3)]] for f in range(n)]
-    for kind in ('rescale', 'window', 'rwvm', 'rwvmlut'):
+    for kind in ('rescale', 'window', 'rwvm', 'rwvmlut', 'voilut'):
         for subset in itertools.product((False, True), repeat=3):
             places = [p for p, on in zip(('image', 'shared', 'perframe'), subset) if on]
             T = {}
@@ -1528,11 +1568,19 @@ def stream_placement(ctx, reqs, pending):
                 elif kind == 'rwvm':
                     ent.append({'place': p_, 'vals': [[{'label': 'A', 'unit': UNITS[0], 'first': 0, 'last': 255, 'slope': str(i), 'intercept': str(100 * i)}]
                                                       for i in ids]})
+                elif kind == 'voilut':     # a VOI LUT per placement / frame (Frame VOI LUT functional group), all different
+                    ent.append({'place': p_, 'vals': [[{'first': 0, 'bits': 8, 'data': [(37 * (k + i) ** 2 + 11 * i * k) % 251 for k in range(32)]}] for i in ids]})
                 else:       # a table per placement / frame, all different
                     ent.append({'place': p_, 'vals': [[{'label': 'A', 'unit': UNITS[0], 'first': 0, 'last': 31,
                                                         'lut': [fs(Fraction(1000 * i + k, 4)) for k in range(32)]}] for i in ids]})
-            tkey = 'rwvm' if kind == 'rwvmlut' else kind
-            if ent:
+            tkey = 'rwvm' if kind == 'rwvmlut' else 'voi_luts' if kind == 'voilut' else kind
+            if ent and kind == 'voilut':
+                for e in ent:
+                    if e['place'] == 'image':
+                        T['voi_luts'] = e['vals'][0]
+                    else:
+                        T.setdefault('voi_luts_placed', []).append(e)
+            elif ent:
                 T[tkey] = ent
             P = {'bits': 8, 'photometric': 'MONOCHROME2', 'frames': frames, 'T': T}
             st = call(build, P)
@@ -1540,7 +1588,7 @@ def stream_placement(ctx, reqs, pending):
                 ctx.note('placement image could not be built: ' + st[2])
                 continue
             im = st[1][0]
-            flags = {'rw': None, 'mod': None, 'voi': None if kind == 'window' else False, 'pal': None, 'icc': None, 'pres': True}
+            flags = {'rw': None, 'mod': None, 'voi': None if kind in ('window', 'voilut') else False, 'pal': None, 'icc': None, 'pres': True}
             kw = flag_kwargs(flags)
             singles = []
             for f in range(n):
@@ -1563,6 +1611,8 @@ def stream_placement(ctx, reqs, pending):
                                 if any(cand in ([vals[e['place']]] if e['place'] != 'perframe' else [3 + g for g in range(n)]) for e in ent) else None
                             if Tc[tkey] is None:
                                 continue
+                            if kind == 'voilut':
+                                Tc = {'voi_luts': Tc[tkey][0]['vals'][0]}
                         rf = ref_frame(dict(P, T=Tc), f, flags, {})
                         if rf[0] == 'ok' and compare_values(res[1], rf[1], rf[2], 'float64') is None:
                             obs = 'none' if cand is None else [cand, cand in (1, 2)]
@@ -1573,7 +1623,7 @@ def stream_placement(ctx, reqs, pending):
                 if batch[0] != 'ok' or not np.array_equal(batch[1], np.stack([s[1] for s in singles])):
                     ctx.fail({'stream': 'place', 'kind': kind, 'places': places, 'frame': 'all'},
                              {'why': 'get_frames differs from per-frame get_frame', 'got': str(batch[1:])[:300]}, site='placement/get_frames')
-    ctx.exhaustive.append('placement: 3 kinds x 8 subsets of {image, shared, per-frame} x 3 frames')
+    ctx.exhaustive.append('placement: 5 kinds (rescale, window, linear / LUT real-world maps, VOI LUTs) x 8 subsets of {image, shared, per-frame} x 3 frames')
 
 
 # ---------------------------------------------------------------------------- standalone transformation objects
@@ -1895,7 +1945,7 @@ def shrink(ctx, failure):
     import copy
     P, f = copy.deepcopy(case['P']), case['frame']
     P['frames'] = [P['frames'][f]]
-    for key in ('rescale', 'window', 'rwvm'):
+    for key in ('rescale', 'window', 'rwvm', 'voi_luts_placed'):
         for e in P['T'].get(key) or []:
             if e['place'] == 'perframe':
                 e['vals'] = [e['vals'][f]]
@@ -2061,7 +2111,8 @@ def stream_entrypoints(ctx, reqs, pending):
                     selectors = [('voi_selector', s_) for s_ in [1, -1, n_alt - 1, -n_alt, expl[-1], expl[0]]]
                     flags = {'rw': None, 'mod': None, 'voi': True, 'pal': None, 'icc': None, 'pres': True}
                 else:
-                    T['voi_luts'] = [dict(gen_lut(r, 8, (0, 60), pow2_range=True), expl=expl[k]) for k in range(n_alt)]
+                    T['voi_luts_placed'] = [{'place': 'perframe', 'vals': [[dict(gen_lut(r, 8, (0, 60), pow2_range=True), expl=expl[k])
+                                                                            for k in range(n_alt)] for _ in range(n)]}]
                     T['rescale'] = [{'place': 'perframe', 'vals': [[fs(Fraction(1)), fs(Fraction(r.randint(-20, 20)))] for _ in range(n)]}]
                     selectors = [('voi_selector', s_) for s_ in [1, -1, n_alt - 1, -n_alt, expl[-1], expl[0]]]
                     flags = {'rw': None, 'mod': None, 'voi': True, 'pal': None, 'icc': None, 'pres': True}
